@@ -31,7 +31,7 @@ def cases(tier, seed):
     def add(kind, **prm):
         s = case_seed('C08', seed, kind, sorted(prm.items()))
         r = np.random.default_rng(s)
-        prm.setdefault('P', int(r.integers(1, 5)))
+        prm.setdefault('P', [1, 2, 3, 4, 1, 2, 3, 6][int(r.integers(8))])
         out.append({'kind': kind, 'seed': s, 'params': prm})
     for rep in range(reps):
         for D in Ds:
